@@ -152,6 +152,7 @@ type VerifSnapshot struct {
 	MsgEvent     int
 	HeartBtInt   time.Duration
 	HBDue        bool
+	ResetChecked time.Time // lastCheckedResetSeqTime
 }
 
 func verifStateString(st sessionState) string {
@@ -191,16 +192,17 @@ func verifResend(st sessionState) (resendState, bool) {
 func (v *VerifSession) Snapshot() VerifSnapshot {
 	s := v.s
 	sn := VerifSnapshot{
-		State:       verifStateString(s.State),
-		SentReset:   s.sentReset,
-		ToSend:      len(s.toSend),
-		PendingStop: s.pendingStop,
-		Stopped:     s.stopped,
-		OutNil:      s.messageOut == nil,
-		InNil:       s.messageIn == nil,
-		MsgEvent:    len(s.messageEvent),
-		HeartBtInt:  s.HeartBtInt,
-		HBDue:       s.heartbeatDue,
+		State:        verifStateString(s.State),
+		SentReset:    s.sentReset,
+		ToSend:       len(s.toSend),
+		PendingStop:  s.pendingStop,
+		Stopped:      s.stopped,
+		OutNil:       s.messageOut == nil,
+		InNil:        s.messageIn == nil,
+		MsgEvent:     len(s.messageEvent),
+		HeartBtInt:   s.HeartBtInt,
+		HBDue:        s.heartbeatDue,
+		ResetChecked: s.lastCheckedResetSeqTime,
 	}
 	if s.State != nil {
 		sn.LoggedOn = s.State.IsLoggedOn()
